@@ -213,6 +213,9 @@ class IntegerEdit(NumEdit):
 
             # convert possible int, long or Decimal to str
             val = str(default)
+            if not isinstance(default, str) and not re.match(f"^-?[{allowed_chars}]+$", val, re.IGNORECASE):
+                # the decimal digits of the number are not all digits of this base
+                raise ValueError(f"invalid value: {default} for base {base}")
 
         super().__init__(
             allowed_chars,
